@@ -18,8 +18,10 @@ import (
 	"io"
 	"strings"
 
+	txt "github.com/9elements/converged-security-suite/v2/pkg/provisioning/txt"
 	"github.com/9elements/converged-security-suite/v2/pkg/tools"
 	"github.com/google/go-tpm/legacy/tpm2"
+	"github.com/sirupsen/logrus"
 	"verifharness/gal"
 )
 
@@ -252,6 +254,75 @@ func write1(p *tools.LCPPolicy) []byte {
 
 var sha3 = crypto.SHA3_256.Available()
 
+// fakeTPM answers the TPM 2.0 commands WritePSIndexTPM20 issues (StartAuthSession, PolicyOR,
+// PolicyCommandCode, PolicyGetDigest, FlushContext, NV_Write) with success and records the data
+// of every NV_Write: these are the bytes "written to the TPM PS index".
+type fakeTPM struct {
+	last     []byte
+	sessions uint32
+	nvIndex  []uint32
+	nvData   [][]byte
+}
+
+func (t *fakeTPM) Write(p []byte) (int, error) {
+	t.last = append([]byte(nil), p...)
+	return len(p), nil
+}
+
+func (t *fakeTPM) Read(p []byte) (int, error) {
+	if len(t.last) < 10 {
+		return 0, io.ErrUnexpectedEOF
+	}
+	code := binary.BigEndian.Uint32(t.last[6:10])
+	tag := uint16(0x8001)
+	var body []byte
+	switch code {
+	case 0x176: // TPM2_StartAuthSession -> session handle, nonceTPM
+		t.sessions++
+		body = binary.BigEndian.AppendUint32(body, 0x03000000+t.sessions)
+		body = binary.BigEndian.AppendUint16(body, 16)
+		body = append(body, make([]byte, 16)...)
+	case 0x189: // TPM2_PolicyGetDigest -> TPM2B_DIGEST
+		body = binary.BigEndian.AppendUint16(body, 32)
+		d := make([]byte, 32)
+		d[0] = byte(t.sessions)
+		body = append(body, d...)
+	case 0x137: // TPM2_NV_Write: authHandle, nvIndex, authorization area, TPM2B data, offset
+		off := 10 + 8
+		if len(t.last) >= off+4 {
+			idx := binary.BigEndian.Uint32(t.last[14:18])
+			off += 4 + int(binary.BigEndian.Uint32(t.last[off:]))
+			if len(t.last) >= off+2 {
+				n := int(binary.BigEndian.Uint16(t.last[off:]))
+				if len(t.last) >= off+2+n {
+					t.nvIndex = append(t.nvIndex, idx)
+					t.nvData = append(t.nvData, append([]byte(nil), t.last[off+2:off+2+n]...))
+				}
+			}
+		}
+		tag = 0x8002
+		body = append(body, 0, 0, 0, 0) // parameterSize
+		body = append(body, 0, 0, 1, 0, 0) // nonce, attributes, hmac
+	}
+	resp := binary.BigEndian.AppendUint16(nil, tag)
+	resp = binary.BigEndian.AppendUint32(resp, uint32(10+len(body)))
+	resp = binary.BigEndian.AppendUint32(resp, 0)
+	resp = append(resp, body...)
+	return copy(p, resp), nil
+}
+
+// psIndexBytes runs the real provisioning path and returns what it hands to TPM2_NV_Write.
+func psIndexBytes(pol *tools.LCPPolicy2) (data []byte, index uint32, err error, panicked bool, msg string) {
+	t := &fakeTPM{}
+	panicked, msg = gal.Recover(func() { err = txt.WritePSIndexTPM20(t, pol, make([]byte, 32)) })
+	if len(t.nvData) == 1 {
+		data, index = t.nvData[0], t.nvIndex[0]
+	} else if err == nil && !panicked {
+		err = fmt.Errorf("%d NV_Write commands seen", len(t.nvData))
+	}
+	return
+}
+
 // ---------------------------------------------------------------- generation
 
 type genIn struct {
@@ -477,6 +548,21 @@ func roundTrip2(c *gal.Ctx, pol *tools.LCPPolicy2, origin string, src interface{
 		c.OracleFail(idx, fmt.Sprintf("serialisation of LCPPolicy2 is %x, the LCP_POLICY2 layout gives %x", b, specBytes2(pol)), siteWrite, d)
 	} else {
 		c.OracleOK()
+	}
+	// the same policy through the provisioning code: bytes of the NV_Write to the PS index
+	if judge {
+		nv, nvIdx, err, pan, msg := psIndexBytes(pol)
+		d2 := map[string]interface{}{"op": "WritePSIndexTPM20(fake TPM)", "origin": origin, "source": src, "policy": fmt.Sprintf("%+v", *pol)}
+		if pan || err != nil {
+			c.OracleFail(-1, fmt.Sprintf("WritePSIndexTPM20 on a recording TPM failed: panic=%v %s err=%v", pan, msg, err), siteWrite, d2)
+		} else {
+			i2 := c.Add("ps_index_write", fmt.Sprintf("CEnc2 %s %s", p2Lit(pol), gal.Bytes(nv)), d2, true)
+			if !bytes.Equal(nv, specBytes2(pol)) || nvIdx != 0x01C10103 {
+				c.OracleFail(i2, fmt.Sprintf("WritePSIndexTPM20 wrote %x to index 0x%x, the LCP_POLICY2 layout gives %x (PS index 0x01C10103)", nv, nvIdx, specBytes2(pol)), siteWrite, d2)
+			} else {
+				c.OracleOK()
+			}
+		}
 	}
 	r := callParse(b)
 	idx = c.Add("parse_of_enc2", fmt.Sprintf("CParse %s %s %s", gal.Bool(sha3), gal.Bytes(b), r.lit()), d, true)
@@ -711,7 +797,8 @@ func flagWords(c *gal.Ctx, wpc uint32, wah uint16, was uint32) {
 // ---------------------------------------------------------------- main
 
 func main() {
-	c := gal.New("C17", header, 420)
+	c := gal.New("C17", header, 560)
+	logrus.SetLevel(logrus.ErrorLevel)
 	offered := []crypto.Hash{crypto.SHA1, crypto.SHA256, crypto.SHA384}
 
 	// ---- 1. all 2^4 x 2^4 x 2^7 flag combinations through GenLCPPolicyV2 and the Parse* decoders
